@@ -39,6 +39,22 @@ def run(rep, tier, seed):
                 el.get("join"), el.get("end"), el.get("ext"), len(set(hw)) > 1,
                 len(g.get("spine", [])), why[:160])
         rep.violation(sig, rp, why[:300])
+    # (d) corners at non-right angles: exact lattice cases with their own generator and trace module
+    gen2 = os.path.join(d, "gen_corner.ndjson")
+    open(gen2, "w").close()
+    r2 = core.tlc("MC_C07Corner", "MC_C07Corner.cfg", d, workers=1, env=dict(GEN_OUT=gen2), heap="2g")
+    rep.add_model("flexpath-corner-cases(rectangles and tan(turn/2) consistent)", r2)
+    obs2 = os.path.join(d, "obs_corner.ndjson")
+    core.run([hb, gen2, obs2], timeout=3000)
+    v2 = core.validate("C07CornerTrace", "C07CornerTrace.cfg", d, obs2, nparts=16, boundary=None, heap="3g")
+    n2 = core.count_lines(gen2)
+    rep.add_validation("flexpath-corner-trace", v2, n2, distinct=n2)
+    for line, why, fn in v2["rejects"]:
+        rp = os.path.join(d, "replay", "c07_corner_%d.ndjson" % line)
+        os.makedirs(os.path.dirname(rp), exist_ok=True)
+        ev = json.loads(core.extract_execution(obs2, line, rp, boundary="{"))
+        g = ev.get("g", {})
+        rep.violation("C07 corner join=%s spine=%s %s" % (g.get("join"), g.get("spine"), why[:160]), rp, why[:300])
     return rep.finish(rule="(a) every construction call kind (16, incl. command strings and repeated "
                            "points) x width/offset given or not x 1..3 elements, and pairs of calls: "
                            "one width/offset entry per spine point; (b) 6 Manhattan spines x 4 width "
@@ -47,4 +63,7 @@ def run(rep, tier, seed):
                            "SureIn / SureOut; (c) circular bends: 5 spines (one corner, two corners sharing a "
                            "short leg, 45 degrees, leg too short, three turns) x 2 widths x 3 offsets x 2 "
                            "radii x 2 end caps, outline measured against every admissible set of bent "
-                           "corners; distinct_nontrivial = cases")
+                           "corners, and the PATH centre line against the same centre curves; (d) one corner at 10 "
+                           "non-right and right angles (3-4-5 directions) x 3 joins x both directions: exact "
+                           "lattice tests (segment rectangles covered, nothing beyond the miter tip); "
+                           "distinct_nontrivial = cases")
